@@ -84,6 +84,7 @@ type hostileOpts struct {
 	WriteList    []int  // nil: authors (+victim); explicit peer indices otherwise; -1 = "*"
 	DefaultAC    bool   // no access-controller options at creation: creator only
 	ACType       string // "" (ipfs) | "simple"
+	LateX        bool   // the attacker does not open the database during set-up (the scenario opens it itself)
 	PriorLegit   bool   // (with SharedOpts) the attacker first writes a legitimate entry to the wildcard sibling and the victim replicates it
 	SharedOpts   bool   // the victim first opens a sibling database with the wildcard list, then this one, with the same options value
 }
@@ -169,6 +170,9 @@ func newHostileEnv(ctx context.Context, o hostileOpts) (*hostileEnv, error) {
 	if err := s.Load(ctx, -1); err != nil {
 		cl.Close()
 		return nil, err
+	}
+	if o.LateX {
+		return env, nil
 	}
 	// attacker: opens the database too (anyone can), replication off
 	sx, err := cl.W.Peers[env.X].DB.Open(ctx, cl.Addr, cl.OpenOpts(&orbitdb.CreateDBOptions{Replicate: &no}))
@@ -495,6 +499,22 @@ func (env *hostileEnv) victimClean() error {
 // stand in the way), everything it held is there again, and it is still clean.
 func (env *hostileEnv) victimRestartClean(ctx context.Context) error {
 	held := hashSetOf(env.victim())
+	// (offline: what the replica held must come back from its own storage, not from its peers)
+	pv := env.cl.W.Peers[env.V]
+	var wasLinked []int
+	for i := range env.cl.W.Peers {
+		if i != env.V && env.cl.W.Linked(env.V, i) {
+			wasLinked = append(wasLinked, i)
+			env.cl.W.Cut(env.V, i)
+		}
+	}
+	pv.Offline = true
+	defer func() {
+		pv.Offline = false
+		for _, i := range wasLinked {
+			env.cl.W.Heal(env.V, i)
+		}
+	}()
 	if err := env.cl.Reopen(ctx, env.V); err != nil {
 		return fmt.Errorf("after a restart the replica cannot load its log any more (it held %d entries): %v", len(held), err)
 	}
